@@ -68,7 +68,7 @@ MTYPE = {"uni": "uniswap", "squ": "uniswap", "aave": "aave", "squeeth": "squeeth
 
 
 def plan(tier, seed):
-    n = 36 if tier == "quick" else 400
+    n = 36 if tier == "quick" else 260
     return [{"shard": i, "cases": n} for i in range(NSHARDS)]
 
 
